@@ -33,25 +33,42 @@ MC_Prog == <<
   P("RetypeByAtt", "S",  "S",  "e0", "tB", "tA", "p0"),   \* 8
   P("DelNodeIso",  "S",  "S",  "e0", "tA", "tA", "p0"),   \* 9
   P("AddEdge",     "n0", "S",  "e1", "tB", "tB", "p0"),   \* 10
-  \* 11..16: the violators of this Variant (same programs, a fault or an omission attached below)
+  \* 11..34: four banks of six violator slots (same six programs; a fault or an omission is attached below)
   P("SetAtom",     "S",  "S",  "e0", "tA", "tA", "p1"),   \* 11
   P("CopyAtt",     "S",  "n0", "e0", "tA", "tA", "p0"),   \* 12
   P("AddEdge",     "S",  "n0", "e1", "tA", "tA", "p0"),   \* 13
   P("DelEdgeFrom", "S",  "S",  "e0", "tA", "tA", "p0"),   \* 14
   P("SetEdgeAtom", "S",  "S",  "e0", "tA", "tA", "p0"),   \* 15
-  P("DelNodeIso",  "S",  "S",  "e0", "tA", "tA", "p0")    \* 16
+  P("DelNodeIso",  "S",  "S",  "e0", "tA", "tA", "p0"),   \* 16
+  P("SetAtom",     "S",  "S",  "e0", "tA", "tA", "p1"),   \* 17
+  P("CopyAtt",     "S",  "n0", "e0", "tA", "tA", "p0"),   \* 18
+  P("AddEdge",     "S",  "n0", "e1", "tA", "tA", "p0"),   \* 19
+  P("DelEdgeFrom", "S",  "S",  "e0", "tA", "tA", "p0"),   \* 20
+  P("SetEdgeAtom", "S",  "S",  "e0", "tA", "tA", "p0"),   \* 21
+  P("DelNodeIso",  "S",  "S",  "e0", "tA", "tA", "p0"),   \* 22
+  P("SetAtom",     "S",  "S",  "e0", "tA", "tA", "p1"),   \* 23
+  P("CopyAtt",     "S",  "n0", "e0", "tA", "tA", "p0"),   \* 24
+  P("AddEdge",     "S",  "n0", "e1", "tA", "tA", "p0"),   \* 25
+  P("DelEdgeFrom", "S",  "S",  "e0", "tA", "tA", "p0"),   \* 26
+  P("SetEdgeAtom", "S",  "S",  "e0", "tA", "tA", "p0"),   \* 27
+  P("DelNodeIso",  "S",  "S",  "e0", "tA", "tA", "p0"),   \* 28
+  P("SetAtom",     "S",  "S",  "e0", "tA", "tA", "p1"),   \* 29
+  P("CopyAtt",     "S",  "n0", "e0", "tA", "tA", "p0"),   \* 30
+  P("AddEdge",     "S",  "n0", "e1", "tA", "tA", "p0"),   \* 31
+  P("DelEdgeFrom", "S",  "S",  "e0", "tA", "tA", "p0"),   \* 32
+  P("SetEdgeAtom", "S",  "S",  "e0", "tA", "tA", "p0"),   \* 33
+  P("DelNodeIso",  "S",  "S",  "e0", "tA", "tA", "p0")   \* 34
 >>
-NoF == [k \in 1..16 |-> ""]
-MC_Fault ==
-  CASE Variant = 0 -> NoF
-    [] Variant = 1 -> [NoF EXCEPT ![11] = "read_node", ![12] = "read_natt", ![13] = "write_node", ![14] = "read_eatt", ![15] = "read_edge", ![16] = "panic"]
-    [] Variant = 2 -> [NoF EXCEPT ![11] = "write_att", ![12] = "cross_warp", ![13] = "write_edge", ![14] = "del_edge", ![15] = "instance_upsert", ![16] = "del_node"]
-    [] Variant = 3 -> [NoF EXCEPT ![11] = "read_adj", ![12] = "open_portal", ![13] = "write_edge_from", ![14] = "instance_delete"]
-    [] Variant = 4 -> NoF
-MC_Omit ==
-  CASE Variant = 4 -> [NoF EXCEPT ![11] = "a_read", ![12] = "a_write", ![13] = "n_write", ![14] = "e_write", ![15] = "e_read", ![16] = "n_read"]
-    [] Variant = 3 -> [NoF EXCEPT ![15] = "a_write", ![16] = "a_read"]
-    [] OTHER -> NoF
+NoF == [k \in 1..34 |-> ""]
+\* bank 1 (11..16): undeclared reads + panic; bank 2 (17..22): undeclared writes / cross-instance / instance op;
+\* bank 3 (23..28): adjacency read, portal, edge-from write, instance delete, two omissions; bank 4 (29..34): one omitted class each
+AllFault == [NoF EXCEPT ![11] = "read_node", ![12] = "read_natt", ![13] = "write_node", ![14] = "read_eatt", ![15] = "read_edge", ![16] = "panic",
+                        ![17] = "write_att", ![18] = "cross_warp", ![19] = "write_edge", ![20] = "del_edge", ![21] = "instance_upsert", ![22] = "del_node",
+                        ![23] = "read_adj", ![24] = "open_portal", ![25] = "write_edge_from", ![26] = "instance_delete"]
+AllOmit  == [NoF EXCEPT ![27] = "a_write", ![28] = "a_read",
+                        ![29] = "a_read", ![30] = "a_write", ![31] = "n_write", ![32] = "e_write", ![33] = "e_read", ![34] = "n_read"]
+MC_Fault == AllFault
+MC_Omit == AllOmit
 
 IdRanks    == JsonDeserialize(IOEnv.VERIF_IDS)
 MC_RankW   == [w \in Warps |-> IdRanks.warps[w]]
@@ -63,8 +80,10 @@ MC_KeyRank == [c \in CandU |-> IdRanks.scope[CandName(c)]]
 
 Honest == {<<1, "w0", "n1">>, <<3, "w0", "n1">>, <<4, "w0", "n2">>, <<5, "w0", "n1">>, <<6, "w0", "n0">>,
            <<7, "w0", "n0">>, <<8, "w0", "n1">>, <<10, "w0", "n1">>, <<1, "w1", "n0">>, <<4, "w1", "n1">>, <<2, "w0", "n2">>}
-Violators == {<<11, "w0", "n2">>, <<12, "w0", "n1">>, <<13, "w0", "n2">>, <<14, "w0", "n1">>, <<15, "w0", "n0">>,
-              <<16, "w0", "n2">>, <<11, "w1", "n1">>}
+ViolatorSlots == {<<11, "w0", "n2">>, <<12, "w0", "n1">>, <<13, "w0", "n2">>, <<14, "w0", "n1">>, <<15, "w0", "n0">>,
+                  <<16, "w0", "n2">>, <<11, "w1", "n1">>}
+Banks == IF Variant = 0 THEN {} ELSE IF Variant = 5 THEN {0, 1, 2, 3} ELSE {Variant - 1}
+Violators == {<<c[1] + 6 * bk, c[2], c[3]>> : c \in ViolatorSlots, bk \in Banks}
 MC_CandU == IF Variant = 0 THEN Honest ELSE Honest \cup Violators
 
 Build(ops) == ApplyOps(EmptyState, ops).s
@@ -83,7 +102,7 @@ PreState(name) ==
 RECURSIVE SubsetsUpTo(_, _)
 SubsetsUpTo(C, k) == IF k = 0 THEN {{}} ELSE LET R == SubsetsUpTo(C, k - 1) IN R \cup {S \cup {x} : S \in R, x \in C}
 OrderOf(S) == DrainOrder(S)
-AccOf(o) == GreedyAdmit([k \in 1..Len(o) |-> GuardFP(o[k])])
+AccOf(o, st) == GreedyAdmit([k \in 1..Len(o) |-> SchedFP(o[k], st)])
 AcceptedOf(o, a) == SelectSeq(o, LAMBDA c : \E k \in 1..Len(o) : o[k] = c /\ a[k])
 WOf(u) == IF Len(u) = 0 THEN 1 ELSE IF Wreq < Len(u) THEN Wreq ELSE Len(u)
 Order == order
@@ -95,7 +114,7 @@ Workers == 1..nw
 
 Init == /\ preName \in PreNames /\ pre = PreState(preName)
         /\ cset \in (SubsetsUpTo({c \in CandU : Matches(c, pre)}, MaxDistinct) \ {{}})
-        /\ order = OrderOf(cset) /\ acc = AccOf(order)
+        /\ order = OrderOf(cset) /\ acc = AccOf(order, pre)
         /\ units = UnitsOf(AcceptedOf(order, acc)) /\ nw = WOf(units)
         /\ next = 0
         /\ pc = [w \in 1..Wreq |-> "idle"] /\ cur = [w \in 1..Wreq |-> 0]
@@ -183,6 +202,7 @@ CaseJson ==
    fail |-> Outcome.fail,
    poison |-> IF FirstPoison = None THEN <<"none">> ELSE FirstPoison,
    post |-> StateJson(Outcome.post),
+   descent |-> [w \in DOMAIN pre.inst |-> {KeyJson(k) : k \in DescentOf(pre, w)}],
    prog |-> [k \in 1..Len(Prog) |-> [Prog[k] EXCEPT !.p = Prog[k].p] @@ [fault |-> Fault[k], omit |-> Omit[k]]]]
 Inv_Export == (Export /\ AllDone) => PrintT(<<"CASE", ToJson(CaseJson)>>)
 =============================================================================
